@@ -105,7 +105,6 @@ type gbSummary struct {
 	Legs   [][][]specRow `json:"legs"`
 	Spills [][2]any      `json:"spills"`
 	Taint  []string      `json:"taint"`
-	Crash  bool          `json:"crash"`
 }
 
 func (s *gbSummary) caseKey() string {
@@ -454,10 +453,9 @@ func coarse(rows []outRow) string {
 }
 
 var taintName = map[string]string{
-	"merge":       "spill-merge-of-comparator-equal-keys",
-	"release":     "sorted-release-missing-vs-null",
-	"nilmaxspill": "nil-maxspillkey",
-	"descnulls":   "desc-input-from-sort-has-nulls-last",
+	"merge":     "spill-merge-of-comparator-equal-keys",
+	"release":   "sorted-release-missing-vs-null",
+	"descnulls": "desc-input-from-sort-has-nulls-last",
 }
 
 func crashSig(msg string) string {
@@ -519,9 +517,6 @@ func groupBy(c *core.Ctx) error {
 		if p.Mode == "partials" {
 			nv["partials"]++
 		}
-		if p.Crash {
-			nv["crash"]++
-		}
 		if len(p.Taint) == 0 {
 			nv["untainted"]++
 		}
@@ -530,7 +525,7 @@ func groupBy(c *core.Ctx) error {
 		}
 	}
 	c.Set("groupby_model_nonvacuity", nv)
-	for _, k := range []string{"with_spill", "released_before_end_of_input", "partials", "crash", "untainted_spill_and_early_release"} {
+	for _, k := range []string{"with_spill", "released_before_end_of_input", "partials", "untainted_spill_and_early_release"} {
 		if nv[k] == 0 {
 			c.Inconclusive("GroupBy.tla %s: no finished behaviour %s (vacuous model run)", cfg, k)
 		}
@@ -710,17 +705,14 @@ func judgeGB(c *core.Ctx, j *gbJob, r result) error {
 			crash = "error: " + st.Err
 		}
 	}
-	predictedCrash := false
-	for _, p := range j.Case.preds {
-		if p.Crash {
-			predictedCrash = true
-		}
-	}
 	if crash != "" {
+		// No behaviour of GroupBy.tla crashes (F-C10-3 and F-C10-5 are fixed and no
+		// longer transcribed): any crash is a violation.  The nil maxSpillKey
+		// dereference keeps the signature of its (fixed) finding.
 		c.Eval(j.CaseKey+"|"+j.How, true)
 		sig := "gb:crash:" + crashSig(crash)
-		if predictedCrash && strings.Contains(crash, "readSpills") {
-			sig = "gb:crash:" + taintName["nilmaxspill"]
+		if strings.Contains(crash, "nil pointer dereference") && strings.Contains(crash, "readSpills") {
+			sig = "gb:crash:nil-maxspillkey"
 		}
 		c.Violate(sig, fmt.Sprintf("group-by (%s) does not produce a result: %s", label, firstLine(crash)), witness)
 		return nil
@@ -768,7 +760,7 @@ func judgeGB(c *core.Ctx, j *gbJob, r result) error {
 	if j.How == "fork" {
 		// the interleaving at the combine is not controlled: compare the final set only
 		for _, p := range j.Case.preds {
-			if !p.Crash && specBatchSig([][]specRow{flattenSpec(p.Out)}) == realBatchSig([][]outRow{flat}) {
+			if specBatchSig([][]specRow{flattenSpec(p.Out)}) == realBatchSig([][]outRow{flat}) {
 				match = p
 				break
 			}
@@ -779,7 +771,7 @@ func judgeGB(c *core.Ctx, j *gbJob, r result) error {
 			if corruptSpec {
 				want += "#"
 			}
-			if p.Crash || want != realBatchSig(realB) {
+			if want != realBatchSig(realB) {
 				continue
 			}
 			ok := true
